@@ -210,7 +210,7 @@ class SimInternalAdapter(BaseInternalRunAdapterDecorator, SnapshottableAdapter):
         if c is not None:
             for nt in list(running) + list(res.started):
                 if nt.task is c:
-                    if not nt.key.startswith("__pull__"):
+                    if not nt.key.startswith("__pull__") or self._w.cfg.get("log_pull_done"):
                         self._w.trace.log("task-done", run=self.run_id, key=nt.key)
                     break
         return res
